@@ -148,6 +148,19 @@ PROPS["C20"] = {
     "rule": "case = one session; distinct_nontrivial counts (#sockets, #nominations, max value) and (|A|,|B|,#renominations,lossy) classes",
     "assumptions": ["default nomination value generator (1,2,3,...) on the controlling agent"],
 }
+PROPS["C02"] = {
+    "parts": [part("TestVerifC02", q=8, t=16, tq=900)],
+    "level": "exploration",
+    "engine": "E1 simnet",
+    "technique": "differential monitor: full agent snapshot (pairs, candidates with liveness stamps, outstanding transactions, selection, state, role), emitted-datagram count and callback logs compared before/after ONE forged STUN message delivered through a real socket endpoint",
+    "level_text": "Grammar-based forger: class x method x USERNAME form (correct, swapped, wrong, absent, previous generation, prefix, trailing colon) x integrity key (correct, other side's, wrong, previous generation, absent) x "
+                  "transaction id (fresh, outstanding, already answered, previous generation) x source (known remote, unknown, the request's destination) x random subset/order of ICE attributes; injected before start of checks, "
+                  "while checking, when connected and after a coordinated Restart, 15-40 injections per history. Expected effect is derived from first principles (which credential verifies, whether the transaction is outstanding and symmetric).",
+    "level_note": "UDP only, so 'known address on the other transport' is not produced. Valid requests and valid, transaction-matched, symmetric responses are not judged by this monitor (C03 does). "
+                  "Attributes placed after MESSAGE-INTEGRITY are not generated.",
+    "rule": "case = one session history with forged-message steps; distinct_nontrivial counts distinct injection classes (kind, username form, key, transaction kind, source kind, expected effect, agent state at injection)",
+    "assumptions": ["liveness refresh by a correctly signed response from a known remote is allowed (the statement restricts pair state only)"],
+}
 PROPS["C05"] = {
     "parts": [part("TestVerifC05", q=8, t=16, tq=900)],
     "level": "exploration",
